@@ -189,6 +189,7 @@ func runHarness(prog *ssa.Program, pkg *ssa.Package, f *ssa.Function, params map
 	res = &Result{Harness: f.Name(), Params: params, Tier: tier, Kinds: map[string]int{}}
 	fb, fa := solverCmd("z3", fastT)
 	fast := NewSolver(fb, fa...)
+	fast.Incremental = os.Getenv("VERIF_NOINCR") == ""
 	sb, sa := solverCmd(solver, strongT)
 	strong := NewSolver(sb, sa...)
 	if solver == "cvc5" {
